@@ -321,7 +321,7 @@ fn run_poly(cx: &mut CaseCx, case: &Value) {
         let name = format!("t={} m#{} e#{}", t, mi, ei);
         let rnd = local_randomness(&ms[mi], &es[ei], t);
         let n = t as usize + 2;
-        let mut pts: Vec<(BigUint, BigUint)> = vec![];
+        let mut shares_xy: Vec<(BigUint, Vec<BigUint>)> = vec![];
         for i in 0..n {
           getrandom::verif::set_group(i as u32 + 1);
           let m = match gen_report(&ms[mi], &es[ei], t, &rnd, &None) {
@@ -332,15 +332,20 @@ fn run_poly(cx: &mut CaseCx, case: &Value) {
             }
           };
           let p = match rm::parse_adss(&m.share.to_bytes()) {
-            Some(p) if p.s.y.len() == 1 => p,
+            Some(p) if !p.s.y.is_empty() => p,
             _ => {
-              cx.viol("C02/share-layout", "share does not parse to one x and one y", json!({"cfg": name}));
+              cx.viol("C02/share-layout", "share does not parse to an x and at least one y", json!({"cfg": name}));
               return;
             }
           };
-          pts.push((p.s.x, p.s.y[0].clone()));
+          shares_xy.push((p.s.x, p.s.y));
         }
-        let mut xs: Vec<&BigUint> = pts.iter().map(|p| &p.0).collect();
+        let width = shares_xy[0].1.len();
+        if shares_xy.iter().any(|s| s.1.len() != width) {
+          cx.viol("C02/share-layout", "shares of one sharing carry different numbers of values", json!({"cfg": name}));
+          return;
+        }
+        let mut xs: Vec<&BigUint> = shares_xy.iter().map(|p| &p.0).collect();
         xs.sort();
         xs.dedup();
         if xs.len() != n {
@@ -349,33 +354,35 @@ fn run_poly(cx: &mut CaseCx, case: &Value) {
         }
         cx.eval();
         cx.nontrivial(fnv_str(&name));
-        let coeffs = rm::interpolate_coeffs(&pts[..t as usize]);
-        for extra in &pts[t as usize..] {
-          if rm::horner(&coeffs, &extra.0) != extra.1 {
-            cx.viol("C02/poly/not-one-polynomial", format!("{}: shares of one measurement do not lie on one polynomial of degree <= t-1", name), json!({"cfg": name}));
+        // one polynomial per value position; ALL their non-constant coefficients must be pairwise distinct
+        for j in 0..width {
+          let pts: Vec<(BigUint, BigUint)> = shares_xy.iter().map(|s| (s.0.clone(), s.1[j].clone())).collect();
+          let coeffs = rm::interpolate_coeffs(&pts[..t as usize]);
+          for extra in &pts[t as usize..] {
+            if rm::horner(&coeffs, &extra.0) != extra.1 {
+              cx.viol("C02/poly/not-one-polynomial", format!("{}: shares of one measurement do not lie on one polynomial of degree <= t-1", name), json!({"cfg": name, "value_position": j}));
+            }
           }
-        }
-        if t >= 2 && coeffs[t as usize - 1].is_zero() {
-          cx.viol("C02/poly/degree-too-low", format!("{}: leading coefficient is zero (degree < t-1)", name), json!({"cfg": name}));
-        }
-        // exact degree: interpolating through t+1 points must not give a higher-degree polynomial, and through
-        // t-1 points must NOT already determine the polynomial
-        if t >= 2 {
-          let low = rm::interpolate_coeffs(&pts[..t as usize - 1]);
-          if rm::horner(&low, &pts[t as usize - 1].0) == pts[t as usize - 1].1 {
-            cx.viol("C02/poly/degree-too-low", format!("{}: t-1 shares already determine the polynomial (degree < t-1)", name), json!({"cfg": name}));
+          if t >= 2 && coeffs[t as usize - 1].is_zero() {
+            cx.viol("C02/poly/degree-too-low", format!("{}: leading coefficient is zero (degree < t-1)", name), json!({"cfg": name, "value_position": j}));
           }
-        }
-        for (i, c) in coeffs.iter().enumerate().skip(1) {
-          if c.is_zero() {
-            cx.viol("C02/poly/zero-coefficient", format!("{}: coefficient of x^{} is zero", name, i), json!({"cfg": name, "degree": i}));
+          if t >= 2 {
+            let low = rm::interpolate_coeffs(&pts[..t as usize - 1]);
+            if rm::horner(&low, &pts[t as usize - 1].0) == pts[t as usize - 1].1 {
+              cx.viol("C02/poly/degree-too-low", format!("{}: t-1 shares already determine the polynomial (degree < t-1)", name), json!({"cfg": name, "value_position": j}));
+            }
           }
-          if let Some(prev) = seen.insert(c.clone(), format!("{} x^{}", name, i)) {
-            cx.viol("C02/poly/coefficient-reused", format!("{}: coefficient of x^{} equals coefficient {}", name, i, prev), json!({"cfg": name, "degree": i, "other": prev}));
+          for (i, c) in coeffs.iter().enumerate().skip(1) {
+            if c.is_zero() {
+              cx.viol("C02/poly/zero-coefficient", format!("{}: coefficient of x^{} is zero", name, i), json!({"cfg": name, "degree": i}));
+            }
+            if let Some(prev) = seen.insert(c.clone(), format!("{} value {} x^{}", name, j, i)) {
+              cx.viol("C02/poly/coefficient-reused", format!("{}: coefficient of x^{} (value position {}) equals coefficient {}", name, i, j, prev), json!({"cfg": name, "degree": i, "other": prev}));
+            }
           }
-        }
-        if coeffs[0].bits() > 128 {
-          cx.viol("C02/constant-term-shape", format!("{}: constant term is not K || 0^8", name), json!({"cfg": name}));
+          if j == 0 && width == 1 && coeffs[0].bits() > 128 {
+            cx.viol("C02/constant-term-shape", format!("{}: constant term is not K || 0^8", name), json!({"cfg": name}));
+          }
         }
         cx.outcome(format!("degree {}", t - 1));
       }
